@@ -514,3 +514,77 @@ def rule_sphinx(check, rule):
                                 'cached_property this runs the getter on a dummy object, and whatever it raises aborts the documentation build',
                                 key=key, witness='a documented property whose getter touches self')
     check.floor(rule, 'external raisers reachable from the Sphinx hook', n, 1)
+
+
+def rule_nested_retrieval_contained(check, rule):
+    """C07.R1c: discovery retrieves the signature of *another* object (the callee found in the body) with
+    forged_signature(); inspect raises TypeError (not callable / not supported) or ValueError (no signature) for
+    such objects although the function under inspection itself is fine.  Every such call site in the discovery
+    closure must sit under handlers that catch both types without re-raising them (they become the fallback)."""
+    cg, es = get_escape(check)
+    n = 0
+    for k in sorted(cg.closure(['_autoforwards:autoforwards'])):
+        f2 = check.repo.func(k, required=False)
+        if f2 is None or f2.module.name != '_autoforwards':
+            continue
+        for cs in cg.sites[k]:
+            if not any(c.key == '_specifiers:forged_signature' for c in cs.callees):
+                continue
+            n += 1
+            chain = es.try_chain(f2, cs.node)
+            for exc in ('TypeError', 'ValueError'):
+                caught = False
+                for tnode, handlers in chain:
+                    for h, names, rer in handlers:
+                        if any(es.catches(hn, exc) for hn in names) and rer == 'no':
+                            caught = True
+                key = '%s|nested-retrieval|%s' % (f2.key, exc)
+                if caught:
+                    check.holds(rule, site_of(f2, cs.node), '%s of the nested retrieval of a callee is absorbed into the fallback' % exc, key=key)
+                else:
+                    check.violation(rule, site_of(f2, cs.node), 'the signature of a callee found in the body is retrieved without a handler for %s: '
+                                    'inspect raises it for callees it cannot introspect (or whose fixed arguments do not fit), and it escapes '
+                                    'sigtools.signature() of a function that inspect.signature handles' % exc, key=key,
+                                    witness='def f(*a, **k): return g(1, 2, 3, *a, **k) with g(x, *args): nested retrieval raises TypeError')
+    check.floor(rule, 'nested retrieval call sites in the discovery closure', n, 1)
+
+
+def rule_sphinx_unchanged_pair(check, rule):
+    """C07.R5b: the fallback of the Sphinx hook hands back *autodoc's own* pair.  A handler that returns names which are
+    parameters of the hook must see their original values: no statement of the guarded block may rebind such a name
+    and be followed, inside the same block, by a statement that can raise (the handler would then return the
+    half-processed object instead of autodoc's string)."""
+    repo = check.repo
+    fi = repo.func('sphinxext:process_signature', required=False)
+    if fi is None:
+        raise Inconclusive('sphinxext.process_signature vanished')
+    pos, va, kwo, kw = fi.params()
+    params = set(pos + kwo)
+    n = 0
+    for tr in [x for x in ast.walk(fi.node) if isinstance(x, ast.Try)]:
+        for h in tr.handlers:
+            rets = [r for r in ast.walk(h) if isinstance(r, ast.Return) and r.value is not None]
+            for r in rets:
+                names = [x.id for x in ast.walk(r.value) if isinstance(x, ast.Name) and x.id in params]
+                if not names:
+                    continue
+                n += 1
+                key = 'process_signature|handler-pair|%s' % norm(r)[:60]
+                bad = None
+                for i, stmt in enumerate(tr.body):
+                    rebound = [x.id for x in ast.walk(stmt) if isinstance(x, ast.Name) and isinstance(x.ctx, ast.Store) and x.id in names]
+                    if not rebound:
+                        continue
+                    later = tr.body[i + 1:]
+                    if any(isinstance(y, (ast.Call, ast.Attribute, ast.Subscript, ast.Raise)) for st_ in later for y in ast.walk(st_)):
+                        bad = (stmt, rebound[0])
+                        break
+                if bad:
+                    check.violation(rule, site_of(fi, bad[0]), 'the guarded block rebinds %r and then goes on with statements that can raise: when they '
+                                    'do, the handler returns the half-processed object under that name instead of the value autodoc passed in'
+                                    % bad[1], key=key, witness='postponed annotation naming a TYPE_CHECKING-only import: the hook returns a '
+                                                               'Signature object where autodoc expects its own string')
+                else:
+                    check.holds(rule, site_of(fi, r), 'the handler returns %s as autodoc passed them: no rebinding inside the guarded block is '
+                                'followed by a raising statement' % ', '.join(names), key=key)
+    check.floor(rule, 'handlers of the Sphinx hook returning its own parameters', n, 1)
